@@ -603,12 +603,16 @@ def run(ctx):
         "C04_wire_compat_from_equiv applies where C14's proven checker wire_equiv answers true (a strict structural equivalence); elsewhere the executed value exchange decides",
     ]
     vlib.build_harness(bins=("vh", "c04"))
+    alt = os.environ.get("C04_VH")          # emulation of a change to typify: a `vh` built against a modified COPY of /repo
+    if alt:
+        vlib.VH = alt
+        ctx.log("EMULATION: typify runs from %s" % alt)
     corpus = load_corpus()
     n_rand = 20 if quick else 150
     rand = rustgen.generate(ctx.seed, n_rand, rustgen.RANDOM_PROFILE)
     us = [c["universe"] for c in corpus] + rand
     extra = {i: c.get("values", {}) for i, c in enumerate(corpus)}
-    name = "c04q" if quick else "c04t"
+    name = ("c04q" if quick else "c04t") + (("x" + __import__("hashlib").sha256(open(alt, "rb").read()).hexdigest()[:6]) if alt else "")
     run_ = Run(ctx, name, us, 6 if quick else 8, ctx.seed, extra_values=extra, nmut=1).execute()
     o, w = run_.origin, run_.world
 
